@@ -223,6 +223,10 @@ pub fn run(ctx: &Ctx) {
     drive_random(ctx, &SUBS[2], ctx.n(100_000, 5_000_000), 400);
     drive_random(ctx, &SUBS[3], ctx.n(50_000, 2_000_000), 200);
     drive_random(ctx, &SUBS[4], ctx.n(100_000, 5_000_000), 300);
+    if !ctx.quick() && !ctx.failed() {
+        crate::fuzzing::drive_fuzz(ctx, "bytes", 3_000_000);
+        crate::fuzzing::drive_fuzz(ctx, "modules", 1_000_000);
+    }
 }
 
 pub fn finish(ctx: &Ctx) -> i32 {
